@@ -918,6 +918,15 @@ class Block(composites.Composite):
             pass
         self._updatePitchComponent(c)
 
+    def restoreBackup(self, paramsToApply):
+        """Restore the block; the component that fills the rest of the block is worked out again.
+
+        Its volume is a function of its siblings: a recomputation that was pending when the backup
+        was made may have been carried out (and used up) since, and is undone by the restore.
+        """
+        composites.Composite.restoreBackup(self, paramsToApply)
+        self.derivedMustUpdate = True
+
     def removeAll(self, recomputeAreaFractions=True):
         for c in list(self):
             self.remove(c, recomputeAreaFractions=False)
